@@ -120,7 +120,9 @@ func (m *Machine) callBuiltin(b *ssa.Builtin, args []Val, caller *frame, site ss
 		m.mapDelete(mo, args[1], "delete")
 		return nil
 	case "close":
-		args[0].(*ChanObj).closed = true
+		ch := args[0].(*ChanObj)
+		m.chanTouch(ch, "close")
+		ch.closed = true
 		return nil
 	case "panic":
 		panic(&goPanic{v: args[0], msg: m.panicText(args[0])})
